@@ -101,6 +101,7 @@ def run(prog, chk):
     ]
     chk.decided += ["components are only resolved into contours by util.decomposeCompositeGlyph; no other decomposing pen / component removal outside reviewed functions (R02.11, shared with C15)"]
     chk.decided += ["per-run accumulators of the interpolatable filters are per master inside the loop over the glyph sets (R02.12, shared with C09)"]
+    chk.decided += ["the outline compilers generate a glyph only for a name the glyph set lacks (R02.13, shared with C01); the .notdef they add is drawn in the output flavour's contour direction (R02.14)"]
     chk.not_decided += ["the cu2qu error bound itself", "point-for-point equality", "maxp counts (fontTools recalc)"]
     chk.guard(r021, prog, chk)
     chk.guard(r022, prog, chk)
@@ -116,6 +117,7 @@ def run(prog, chk):
     chk.guard(check_master_isolation, prog, chk, "R02.12")
     from .c01 import check_only_missing_glyphs_added
     chk.guard(check_only_missing_glyphs_added, prog, chk, "R02.13")
+    chk.guard(r0214, prog, chk)
 
 
 def _append_of(prog, fi, ctor_name):
@@ -634,7 +636,34 @@ def r0210(prog, chk, rule="R02.10"):
     chk.minimum(rule, 9)
 
 
+
+# ----------------------------------------------------------------------------- R02.14
+def r0214(prog, chk):
+    """Glyphs the outline compiler adds itself (.notdef: the caller's notdefGlyph or the generated box) are drawn in the
+    output flavour's contour direction: both branches of makeMissingRequiredGlyphs receive reverseContour = 'this is a
+    TrueType-flavoured font'."""
+    ix = prog.ix
+    from .common import BASE_OUTLINE
+    m = ix.get_method(BASE_OUTLINE, "makeMissingRequiredGlyphs", own=True)
+    makers = [c for c in A.body_nodes(m.node) if isinstance(c, ast.Call) and A.callee_name(c) in ("_copyGlyph", "StubGlyph")]
+    need(len(makers) >= 2, f"cannot interpret {m.short}: .notdef makers")
+    sfnt = m.params()[3]
+    for c in makers:
+        v = A.kwarg(c, "reverseContour")
+        ok = v is not None
+        if ok:
+            def is_tt_test(e, f_):
+                p_ = A.compare_parts(e)
+                return bool(p_) and isinstance(p_[1], ast.Eq) and {T(p_[0]), T(p_[2])} >= {sfnt} and any(isinstance(x, ast.Constant) and x.value == "\x00\x01\x00\x00" for x in (p_[0], p_[2]))
+            ok, _ = every_origin(prog, m, v, is_tt_test, allow_const=False)
+        chk.ob("R02.14", f"{m.short}|{A.callee_name(c)}(reverseContour = TrueType flavour)", ok, where(m, c), detail=T(v) if v is not None else "no reverseContour argument",
+               message=f"{m.short}: the .notdef made by {A.callee_name(c)} is not drawn in the contour direction of the output flavour (TrueType fonts get a PostScript-direction .notdef)")
+    chk.minimum("R02.14", 2)
+
+
 MUTANTS = [
+    M("custom .notdef copied without the flavour's contour direction (mutation scan run 2, k=196)", "ufo2ft/outlineCompiler.py", "BaseOutlineCompiler.makeMissingRequiredGlyphs",
+      "_copyGlyph(notdefGlyph, reverseContour=reverseContour)", "_copyGlyph(notdefGlyph)", rule="R02.14"),
     M("already quadratic layers are still reversed (seeded C02e shape)", "ufo2ft/filters/cubicToQuadratic.py", "CubicToQuadraticFilter.filter",
       "contours = list(glyph)", "if glyph.lib.get('already'):\n    pen = ReverseContourPointPen(glyph.getPointPen())\ncontours = list(glyph)", rule="R02.2"),
     M("quadratic marker no longer stops the filter", "ufo2ft/filters/cubicToQuadratic.py", "CubicToQuadraticFilter.__call__",
